@@ -24,7 +24,9 @@ def bound_for(solver, test, g, eps):
 
 # stress cases that every run contains (the rest is random): families on which a wrong stopping measure stops far too early
 FORCED = [("vi", "span", "twosink"), ("pi", "span", "twosink"), ("vi", "span", "cost"), ("vi", "max_diff", "twosink"), ("semi", "max_diff", "twosink"),
-          ("pi", "max_diff", "cost"), ("vi", "span", "twosink"), ("semi", "max_diff", "cost")]
+          ("pi", "max_diff", "cost"), ("vi", "span", "twosink"), ("semi", "max_diff", "cost"),
+          # near-ties: a slightly worse copy of an action at a lower index; a tolerance-based arg-max keeps it and the policy looks stable
+          ("pi", "span", "random", True), ("pi", "max_diff", "unichain", True), ("vi", "span", "random", True), ("semi", "max_diff", "random", True)]
 
 
 def gen_case(rng, i, tier):
@@ -33,7 +35,9 @@ def gen_case(rng, i, tier):
     forced = FORCED[i] if i < len(FORCED) else None
     if forced:
         solver, kind = forced[0], forced[2]
+    near = bool(forced and len(forced) > 3)
     spec = gen.gen_spec(rng, smax=10 if tier == "quick" else 30, kind=kind, S=(rng.randint(3, 10) if forced else None),
+                        A=(rng.choice([2, 3, 4]) if near else None), near_tie=(True if near else None),
                         denom=rng.choice([4, 8]), R=rng.choice([10, 1000] if forced else [1, 10, 1000, 10 ** 6]))
     S = spec_size(spec)
     g = rng.choice(["1/2", "3/4", "7/8", "9/10", "99/100", "15/16"])
@@ -41,6 +45,8 @@ def gen_case(rng, i, tier):
     if forced:
         g = rng.choice(["3/4", "7/8", "9/10", "15/16"])
         eps = rng.choice(["1/1000", "1/100", "1/2"])
+    if near:
+        eps = rng.choice(["1/1000000", "1/100000"])       # far below the loss of preferring the worse copy: (R/2^18)/(1-gamma)
     op = {"op": "new", "solver": solver, "id": f"p{i}", "maxbs": rng.choice(gen.layouts_for(S)), "gamma": g, "eps": eps,
           "test": forced[1] if forced else rng.choice(["span", "max_diff"]), "n_hint": S}
     if solver == "pi":
